@@ -4,6 +4,14 @@ import TongoProofs.Lemmas.Dec
 namespace Tongo.Json
 open Tongo Tongo.Dec
 
+/-- a bind does not panic when neither part does -/
+theorem isPanic_bind {α β} (x : Outcome α) (f : α → Outcome β) (hx : x.isPanic = false)
+    (hf : ∀ a, (f a).isPanic = false) : (x.bind f).isPanic = false := by
+  cases x with
+  | ok a => exact hf a
+  | err e => rfl
+  | panic p => cases hx
+
 theorem dropWhile_all_false {α} (p : α → Bool) (l : List α) (h : ∀ c ∈ l, p c = false) : l.dropWhile p = l := by
   cases l with
   | nil => rfl
